@@ -52,6 +52,15 @@ def current_command(cmd):
     return deco
 
 
+class RecipientsRefused(SmtpRelayError):
+    """Every recipient was refused, but not all with the same class of
+    reply; carries one error per recipient, in envelope order."""
+
+    def __init__(self, errors):
+        super(RecipientsRefused, self).__init__('Mixed', errors[0].reply)
+        self.errors = errors
+
+
 class SmtpRelayClient(RelayPoolClient):
 
     _client_class = Client
@@ -190,7 +199,12 @@ class SmtpRelayClient(RelayPoolClient):
             if not rcptto.is_error():
                 break
         else:
-            raise SmtpRelayError.factory(rcpttos[0])
+            errors = [SmtpRelayError.factory(rcptto) for rcptto in rcpttos]
+            if len(set(type(error) for error in errors)) > 1:
+                # Refused for good and refused for now: no single error
+                # would be right for every recipient.
+                raise RecipientsRefused(errors)
+            raise errors[0]
         if data.is_error():
             raise SmtpRelayError.factory(data)
 
@@ -245,6 +259,9 @@ class SmtpRelayClient(RelayPoolClient):
             self._handle_encoding(envelope)
             self._send_envelope(rcpt_results, envelope)
             msg_result = self._send_message_data(envelope)
+        except RecipientsRefused as e:
+            result.set(dict(zip(envelope.recipients, e.errors)))
+            self._rset()
         except SmtpRelayError as e:
             result.set_exception(e)
             self._rset()
